@@ -78,6 +78,8 @@ def seeds():
 
     out["stl"] = ("stl", b(tri.export(file_type="stl")))
     out["stl_ascii"] = ("stl", b(tri.export(file_type="stl_ascii")))
+    # a valid multi-solid ascii file whose first solid is empty
+    out["stl_ascii_two_solids"] = ("stl", b"solid a\nendsolid a\n" + b(tri.export(file_type="stl_ascii")))
     out["ply"] = ("ply", b(tet.export(file_type="ply")))
     out["ply_ascii"] = ("ply", b(tri.export(file_type="ply", encoding="ascii")))
     out["off"] = ("off", b(tri.export(file_type="off")))
@@ -230,6 +232,113 @@ def faults(name, data, tier, second=None):
 
 
 # ---------------------------------------------------------------------------
+# growth: "within a bound proportional to the input size"
+# ---------------------------------------------------------------------------
+
+GROWTH_BYTES = {"quick": 48 * 1024, "thorough": 128 * 1024}  # size of the smaller inflated file; the larger one has 4x the repeats
+GROWTH_SOFT, GROWTH_HARD = 30.0, 90.0  # seconds: the inflated files are 0.2 - 0.5 MB, the bound scales with the input
+
+
+def units(data, tier):
+    """Every contiguous range of lines (text) / aligned 16-byte chunks (binary) that is repeated in place."""
+    if is_text(data):
+        parts = data.split(b"\n")
+        parts = [x + b"\n" for x in parts[:-1]] + ([parts[-1]] if parts[-1] else [])
+    else:
+        parts = [data[k : k + 16] for k in range(0, len(data), 16)]
+    L = len(parts)
+    if L <= 16:
+        span, step = L, 1
+    elif L <= 60 or tier == "thorough":
+        span, step = 3, 1
+    else:
+        span, step = 2, max(1, L // 60)
+    for i in range(0, L, step):
+        for j in range(i + 1, min(L, i + span) + 1):
+            yield parts, i, j
+
+
+def inflate(parts, i, j, k):
+    return b"".join(parts[:i]) + b"".join(parts[i:j]) * k + b"".join(parts[j:])
+
+
+def growth_specs(data, tier):
+    out = []
+    for parts, i, j in units(data, tier):
+        unit = sum(len(x) for x in parts[i:j])
+        if unit == 0:
+            continue
+        k = max(2, -(-GROWTH_BYTES[tier] // unit))
+        out.append((i, j, k))
+    return out
+
+
+def materialize(blob):
+    """A case carries either the bytes or a compact ("inflate", seed bytes, text?, i, j, k) description."""
+    if isinstance(blob, (bytes, bytearray)):
+        return blob
+    _, data, i, j, k = blob
+    if is_text(data):
+        parts = data.split(b"\n")
+        parts = [x + b"\n" for x in parts[:-1]] + ([parts[-1]] if parts[-1] else [])
+    else:
+        parts = [data[q : q + 16] for q in range(0, len(data), 16)]
+    return inflate(parts, i, j, k)
+
+
+def growth_verdict(small, big):
+    """CPU seconds of the load at k and at 4k repeats: more than 10x for 4x the input is super-linear
+    (n log n gives ~4.5x, quadratic 16x); tiny absolute times are not judged."""
+    return big > 0.15 and big > 10.0 * max(small, 0.012)
+
+
+def _w_growth(task):
+    name, ft, data, tier, route, lo, hi = task
+    global _SCRATCH
+    t = harness.Tally()
+    _SCRATCH = tempfile.mkdtemp(prefix="c20_")
+    try:
+        specs = growth_specs(data, tier)[lo:hi]
+        cases = []
+        for i, j, k in specs:
+            cases.append((ft, route, "fileobj", ("inflate", data, i, j, k)))
+            cases.append((ft, route, "fileobj", ("inflate", data, i, j, 4 * k)))
+        res = sandbox.run_cases(_load_case, cases, soft=GROWTH_SOFT, hard=GROWTH_HARD)
+        for n, (i, j, k) in enumerate(specs):
+            a, b2 = res[2 * n], res[2 * n + 1]
+            if a and b2 and growth_verdict(a["cpu"], b2["cpu"]):
+                # measure the pair twice more: the verdict uses the fastest large and the slowest small run
+                more = sandbox.run_cases(_load_case, cases[2 * n : 2 * n + 2] * 2, soft=GROWTH_SOFT, hard=GROWTH_HARD)
+                if all(more):
+                    a = dict(a, cpu=max(a["cpu"], more[0]["cpu"], more[2]["cpu"]))
+                    b2 = dict(b2, cpu=min(b2["cpu"], more[1]["cpu"], more[3]["cpu"]))
+            t.evaluations += 2
+            t.stats["fault class:range repeated (growth pair)"] += 1
+            case = {"format": name, "file_type": ft, "route": route, "via": "fileobj", "fault": "range repeated", "data": data, "range": [i, j], "repeats": k}
+            bad = None
+            for r in (a, b2):
+                kind, extra = r["outcome"] if r else ("none", None)
+                t.stats[f"outcome:{kind}"] += 1
+                if kind in ("timeout", "hard_timeout"):
+                    bad = f"loading does not finish within the time bound [{name}; range repeated]"
+                elif kind == "memory_error":
+                    bad = f"loading exhausts memory (2 GiB cap) [{name}; range repeated]"
+                elif kind == "crash":
+                    bad = f"loading kills the interpreter (exit {extra}) [{name}; range repeated]"
+                elif kind == "base_exception":
+                    bad = f"loading raises {extra}, not an ordinary exception [{name}; range repeated]"
+            if bad is None and a and b2 and growth_verdict(a["cpu"], b2["cpu"]):
+                bad = f"loading time grows faster than the input [{name}; range repeated]"
+            if a and b2 and a["outcome"][0] in ("ok", "exception"):
+                t.nontrivial.add(harness.short_hash((name, "growth", i, j, a["outcome"])))
+            if bad:
+                t.violation(bad, case, {"cpu_s_at_k": a and a["cpu"], "cpu_s_at_4k": b2 and b2["cpu"], "repeats": k, "range": [i, j], "bytes_at_4k": len(materialize(("inflate", data, i, j, 4 * k)))})
+    finally:
+        shutil.rmtree(_SCRATCH, ignore_errors=True)
+    return t
+
+
+# ---------------------------------------------------------------------------
 # the sandboxed function
 # ---------------------------------------------------------------------------
 
@@ -241,6 +350,7 @@ def _load_case(case):
     import trimesh
 
     ft, route, via, blob = case
+    blob = materialize(blob)
     if via in ("path", "path+type"):
         fd, path = tempfile.mkstemp(suffix="." + ft, dir=_SCRATCH)
         with os.fdopen(fd, "wb") as f:
@@ -328,6 +438,16 @@ def _w(task):
 def replay(case):
     global _SCRATCH
     data = harness.unjson_bytes(case["data"])
+    if case.get("fault") == "range repeated":
+        i, j = case["range"]
+        k = case["repeats"]
+        # the pair is measured twice; the verdict must hold both times
+        keys = None
+        for _ in range(2):
+            tt = _w_growth_one(case["format"], case["file_type"], data, case["route"], i, j, k)
+            ks = {kk for kk, c, d in tt.violations}
+            keys = ks if keys is None else keys & ks
+        return [(kk, {}) for kk in sorted(keys)]
     t = harness.Tally()
     _SCRATCH = tempfile.mkdtemp(prefix="c20_")
     try:
@@ -354,6 +474,31 @@ def replay(case):
     finally:
         shutil.rmtree(_SCRATCH, ignore_errors=True)
     return [(k, d) for k, c, d in t.violations]
+
+
+def _w_growth_one(name, ft, data, route, i, j, k):
+    global _SCRATCH
+    t = harness.Tally()
+    _SCRATCH = tempfile.mkdtemp(prefix="c20_")
+    try:
+        cases = [(ft, route, "fileobj", ("inflate", data, i, j, k)), (ft, route, "fileobj", ("inflate", data, i, j, 4 * k))]
+        a, b2 = sandbox.run_cases(_load_case, cases, soft=GROWTH_SOFT, hard=GROWTH_HARD)
+        case = {"format": name}
+        for r in (a, b2):
+            kind, extra = r["outcome"]
+            if kind in ("timeout", "hard_timeout"):
+                t.violation(f"loading does not finish within the time bound [{name}; range repeated]", case, {})
+            elif kind == "memory_error":
+                t.violation(f"loading exhausts memory (2 GiB cap) [{name}; range repeated]", case, {})
+            elif kind == "crash":
+                t.violation(f"loading kills the interpreter (exit {extra}) [{name}; range repeated]", case, {})
+            elif kind == "base_exception":
+                t.violation(f"loading raises {extra}, not an ordinary exception [{name}; range repeated]", case, {})
+        if not t.violations and growth_verdict(a["cpu"], b2["cpu"]):
+            t.violation(f"loading time grows faster than the input [{name}; range repeated]", case, {})
+    finally:
+        shutil.rmtree(_SCRATCH, ignore_errors=True)
+    return t
 
 
 def main(run):
@@ -387,11 +532,24 @@ def main(run):
     run.log(f"{len(S)} seed files, {len(tasks)} tasks, {total} loads")
     res = harness.pmap_nd(_w, tasks)
     run.merge(res)
+    # growth pairs run afterwards on their own so that CPU times are not measured next to 16 busy neighbours of another kind
+    gtasks = []
+    gpairs = 0
+    for name in names:
+        ft, data = S[name]
+        ng = len(growth_specs(data, tier))
+        gpairs += ng
+        for route in ROUTES.get(ft, ["load"])[:1]:
+            for lo in range(0, ng, 40):
+                gtasks.append((name, ft, data, tier, route, lo, min(ng, lo + 40)))
+    run.log(f"growth: {gpairs} (range, k / 4k) pairs in {len(gtasks)} tasks")
+    run.merge(harness.pmap_nd(_w_growth, gtasks))
     cov = {
         "exhaustive": not strided,
         "caps": ("quick tier: seeds above 1500 bytes (" + ", ".join(strided) + ") are enumerated on a fixed grid (every 4th truncation length, byte faults at every 16th offset, numeric tokens of the first 1500 bytes); all other seeds and, in the thorough tier, all seeds at every offset") if strided else "none",
         "seeds": {k: len(v[1]) for k, v in S.items()},
-        "rule": "for each seed file: every truncation length; every offset x 11-value byte alphabet; every numeric token / aligned header integer x extreme values; swaps, duplications and removals of lines / aligned 4- and 16-byte chunks; splices with another valid file on a 16-byte grid; (thorough) pairs of byte faults on a stride-7 grid and all loader entry points. distinct_nontrivial = distinct (format, fault class, exception type) outcomes observed",
-        "loads": total,
+        "rule": "for each seed file: every truncation length; every offset x 11-value byte alphabet; every numeric token / aligned header integer x extreme values; swaps, duplications and removals of lines / aligned 4- and 16-byte chunks; splices with another valid file on a 16-byte grid; (thorough) pairs of byte faults on a stride-7 grid and all loader entry points; growth: every contiguous range of lines / 16-byte chunks (all ranges for seeds of <= 16 units, ranges of <= 2-3 units otherwise) repeated in place k and 4k times (k sized for 48 KiB quick / 128 KiB thorough), CPU time at 4k must not exceed 10x the time at k. distinct_nontrivial = distinct (format, fault class, exception type) outcomes observed",
+        "loads": total + 2 * gpairs,
+        "growth_pairs": gpairs,
     }
     return run.finish(cov, assumptions=["time bound: CPU <= max(2 s, 2 ms per input byte), soft limit 4 s, hard limit 20 s wall", "memory: peak RSS growth <= 256 MiB under a 2 GiB address-space cap", "a file object passed in by the caller is not required to be closed"], confirm_limit=6)
